@@ -5,6 +5,7 @@ import (
 	"encoding/hex"
 	"encoding/json"
 	"fmt"
+	"os"
 	"strings"
 
 	"github.com/nyaruka/gocommon/i18n"
@@ -12,8 +13,28 @@ import (
 	"github.com/nyaruka/gocommon/uuids"
 	"github.com/nyaruka/goflow/assets"
 	"github.com/nyaruka/goflow/contactql"
+	"github.com/nyaruka/goflow/flows/definition"
 	"github.com/nyaruka/goflow/flows/definition/migrations"
+	"github.com/nyaruka/goflow/flows/translation"
+
+	"gfverif/sim"
 )
+
+var corpusCache []*CorpusDef
+var corpusLoaded bool
+
+// cachedCorpus loads the repository's corpus once per process.
+func cachedCorpus() []*CorpusDef {
+	if !corpusLoaded {
+		repo := os.Getenv("VERIF_REPO")
+		if repo == "" {
+			repo = "/repo"
+		}
+		corpusCache = LoadCorpus(repo)
+		corpusLoaded = true
+	}
+	return corpusCache
+}
 
 // OutputLog is the full observable output of a scenario (C08): labelled byte strings.
 type OutputLog struct {
@@ -94,6 +115,42 @@ func (w *World) staticOutputs(out *OutputLog) {
 			out.add(fmt.Sprintf("clone/flow%d", i), fmt.Sprintf("%v|%s", err, c))
 		}); p != "" {
 			out.add(fmt.Sprintf("migrate/flow%d", i), "PANIC "+firstLine(p))
+		}
+	}
+	// old-format definitions from the repository's corpus (chosen by the run's seed): migration,
+	// cloning, reading and inspection must give identical bytes on every call
+	corpus := cachedCorpus()
+	for k := 0; k < 2 && len(corpus) > 0; k++ {
+		cd := corpus[int(sim.Mix(w.T.Seed, uint64(k), 77)%uint64(len(corpus)))]
+		if p := guarded(func() {
+			m, err := migrations.MigrateToLatest(cd.Bytes, migrations.DefaultConfig)
+			out.add(fmt.Sprintf("corpus-migrate/%d", k), fmt.Sprintf("%v|%s", err, m))
+			if err != nil {
+				return
+			}
+			snap := w.Seams.Snapshot()
+			c, cerr := migrations.Clone(m, map[uuids.UUID]uuids.UUID{})
+			w.Seams.Restore(snap)
+			out.add(fmt.Sprintf("corpus-clone/%d", k), fmt.Sprintf("%v|%s", cerr, c))
+			fl, rerr := definition.ReadFlow(m, nil)
+			if rerr != nil {
+				out.add(fmt.Sprintf("corpus-read/%d", k), rerr.Error())
+				return
+			}
+			b, _ := jsonx.Marshal(fl)
+			out.add(fmt.Sprintf("corpus-marshal/%d", k), string(b))
+			b, _ = jsonx.Marshal(fl.Inspect(sa))
+			out.add(fmt.Sprintf("corpus-inspect/%d", k), string(b))
+			b, _ = json.Marshal(fl.ExtractTemplates())
+			out.add(fmt.Sprintf("corpus-templates/%d", k), string(b))
+			po, perr := translation.ExtractFromFlows("test", "spa", nil, fl)
+			if perr == nil {
+				var sb strings.Builder
+				po.Write(&sb)
+				out.add(fmt.Sprintf("corpus-po/%d", k), sb.String())
+			}
+		}); p != "" {
+			out.add(fmt.Sprintf("corpus-migrate/%d", k), "PANIC "+firstLine(p))
 		}
 	}
 	for gi, g := range sa.Groups().All() {
